@@ -195,7 +195,8 @@ func (s *Schema) Validate(document jschema.Document) (err error) {
 		return err
 	}
 
-	if _, ok := document.(*json.Document); !ok {
+	doc, ok := document.(*json.Document)
+	if !ok {
 		return fmt.Errorf("support only JSON documents, but got %T", document)
 	}
 
@@ -203,7 +204,13 @@ func (s *Schema) Validate(document jschema.Document) (err error) {
 		return errors.NewDocumentError(s.file, errors.ErrEmptySchema)
 	}
 
-	return s.validate(document)
+	// The whole document is validated, whatever was read from it before (an
+	// earlier validation reads it to its end): like Check and Len of the
+	// document, the validation rewinds it before and after.
+	doc.Rewind()
+	defer doc.Rewind()
+
+	return s.validate(doc)
 }
 
 func (s *Schema) validate(document jschema.Document) error {
